@@ -88,6 +88,7 @@ func init() {
 			{Name: "bus", Run: c15Bus, Procs: 4, Quiet: 50 * time.Second, Cases: func(t rig.Tier) int { return map[rig.Tier]int{rig.Quick: 300, rig.Thorough: 5000}[t] }},
 			{Name: "bus-race", Race: true, Run: c15Bus, Procs: 4, Quiet: 90 * time.Second, Cases: func(t rig.Tier) int { return map[rig.Tier]int{rig.Quick: 64, rig.Thorough: 800}[t] }},
 			{Name: "integrated", Run: c15Integrated, Procs: 4, Quiet: 50 * time.Second, Cases: func(t rig.Tier) int { return map[rig.Tier]int{rig.Quick: 80, rig.Thorough: 800}[t] }},
+			{Name: "leave-join", Run: c15LeaveJoin, Procs: 4, Quiet: 90 * time.Second, Cases: func(t rig.Tier) int { return map[rig.Tier]int{rig.Quick: 60, rig.Thorough: 1200}[t] }},
 			{Name: "integrated-race", Race: true, Run: c15Integrated, Procs: 4, Quiet: 90 * time.Second, Cases: func(t rig.Tier) int { return map[rig.Tier]int{rig.Quick: 20, rig.Thorough: 200}[t] }},
 		},
 	})
